@@ -168,14 +168,12 @@ def handlers : List (String × (List Sexp → String)) := [
       let e ← extra.mapM earg?
       pure (if evalArgsFaithful e then "faithful" else if evalGlobalsOnly e then "eval_globals_without_locals"
             else if evalNoneGlobals e then "eval_explicit_none_globals" else "other")),
-  -- depth of the calling frame below the user frame: 0 iff the frame found innermost is the outermost holder
+  -- class of C14-frame-builtin-in-body evaluated on a recorded stack
   ("c14.class.body", fun a => run do
-      let [.atom name, id, .list frames] := a | none
+      let [.atom name, id, .list needed, .list frames] := a | none
       let fs ← frames.mapM frame?
-      let id ← id.nat?
-      match findOriginatingFrame name id true fs, findOriginatingFrame name id false fs with
-      | some i, some j => pure (toString (Sexp.ofBool (i != j)))
-      | _, _ => pure "none")
+      let needed ← needed.mapM Sexp.str?
+      pure (toString (Sexp.ofBool (bodyHidesName name (← id.nat?) needed fs))))
 ]
 
 end Malt.Drv.C14
